@@ -256,6 +256,23 @@ def isEmptyVal : Val → Bool
 def b64Kind : FName → Nat
   | .base64_encode => 0 | .base64_decode => 1 | .base64_url_safe_encode => 2 | _ => 3
 
+/-- `separator.join(items)`: `Markup.join` escapes the unsafe items, `str.join` returns a plain `str` -/
+def joinT (sep : TStr) (items : List TStr) : TStr :=
+  if sep.safe then ⟨joinStr sep.chars (items.map escT), true⟩ else ⟨joinStr sep.chars (items.map (·.chars)), false⟩
+
+/-- the separator of `join`: `str(separator)`, and `Markup(" ")` for the default `" "` under autoescape -/
+def joinSep (P : Prims) (auto : Bool) (args : List Val) : TStr :=
+  let sep0 : TStr := match args with
+    | [a] => argS P a
+    | _ => ⟨[' '], false⟩
+  if auto && sep0.chars == [' '] then ⟨[' '], true⟩ else sep0
+
+/-- `default`'s second argument (`""` when missing) -/
+def defaultArg (args : List Val) : Val :=
+  match args with
+  | [a] => a
+  | _ => .str ⟨[], false⟩
+
 def applyFilter (P : Prims) (auto : Bool) (f : FName) (v : Val) (args : List Val) : R :=
   let s := recvS P v
   match f, args with
@@ -368,15 +385,9 @@ def applyFilter (P : Prims) (auto : Bool) (f : FName) (v : Val) (args : List Val
     (match args with
      | _ :: _ :: _ => .error .filter
      | _ =>
-       let sep0 : TStr := match args with
-         | [a] => argS P a
-         | _ => ⟨[' '], false⟩
-       let sep : TStr := if auto && sep0.chars == [' '] then ⟨[' '], true⟩ else sep0
        match seqOf P v with
        | none => .error .unmodelled
-       | some items =>
-         if sep.safe then okS ⟨joinStr sep.chars (items.map escT), true⟩
-         else okS ⟨joinStr sep.chars (items.map (·.chars)), false⟩)
+       | some items => okS (joinT (joinSep P auto args) items))
   | .first, [] =>
     (match v with
      | .arr (x :: _) => okS x
@@ -405,9 +416,7 @@ def applyFilter (P : Prims) (auto : Bool) (f : FName) (v : Val) (args : List Val
     (match args with
      | _ :: _ :: _ => .error .filter
      | _ =>
-       let d : Val := match args with
-         | [a] => a
-         | _ => .str ⟨[], false⟩
+       let d : Val := defaultArg args
        match v with
        | .num _ => .ok v
        | .nil => .ok d
@@ -685,5 +694,51 @@ def render (P : Prims) (auto : Bool) (t : List Node) (data : Env) : Except Err S
   match renderNodes P auto t { scopes := [], locals := [], globals := data, cycles := [], out := [] } with
   | .ok st => .ok st.out
   | .error e => .error e
+
+/-! ## the hypotheses of the property on a template: literal text and string literals free of raw specials, no `safe`
+filter and no HTML-generating filter -/
+
+def Arg.ok : Arg → Bool
+  | .lit s => isClean s
+  | _ => true
+
+def FName.allowed (f : FName) : Bool := f != .safe && f != .newline_to_br
+
+def FCall.ok (f : FCall) : Bool := f.name.allowed && f.args.all Arg.ok
+
+def Cond.ok : Cond → Bool
+  | .truthy a => a.ok
+  | .eq a b => a.ok && b.ok
+  | .contains a b => a.ok && b.ok
+  | .not c => c.ok
+  | .and c d => c.ok && d.ok
+  | .or c d => c.ok && d.ok
+
+def Expr.ok : Expr → Bool
+  | .chain h fs => h.ok && fs.all FCall.ok
+  | .ternary h fs c alt tail =>
+    h.ok && fs.all FCall.ok && c.ok && (match alt with | some (a, afs) => a.ok && afs.all FCall.ok | none => true)
+      && tail.all FCall.ok
+
+def Piece.ok : Piece → Bool
+  | .text s => isClean s
+  | .var _ => true
+
+mutual
+def Node.ok : Node → Bool
+  | .text s => isClean s
+  | .output e => e.ok
+  | .assign _ e => e.ok
+  | .capture _ b => nodesOk b
+  | .cycle args => args.all Arg.ok
+  | .for_ _ it b d => it.ok && nodesOk b && nodesOk d
+  | .if_ c t e => c.ok && nodesOk t && nodesOk e
+  | .include args b => args.all (fun p => p.2.ok) && nodesOk b
+  | .render args b => args.all (fun p => p.2.ok) && nodesOk b
+  | .translate args msg => args.all (fun p => p.2.ok) && msg.all Piece.ok
+def nodesOk : List Node → Bool
+  | [] => true
+  | n :: ns => n.ok && nodesOk ns
+end
 
 end LiquidVerif.Taint
